@@ -16,7 +16,7 @@ from vt import core, dsw, gen, build as B
 
 PROP = 'C18'
 RULE = ('worlds = one shared constraint spec each (AtMostKInARow, AtLeastKInARow, ExactlyK, ExactlyKInARow, Pin first/last, Exclude, Sequential, '
-        'two constraints together); menu of 12 constructions; all histories of depth <= 3 (thorough 4); states = distinct canonical '
+        'two constraints together); menu of 14 constructions; all histories of depth <= 3 (thorough 4); states = distinct canonical '
         'states, transitions = constructions executed; non-trivial = the history builds >= 2 blocks of different geometry that share '
         'a constraint object.')
 ASSUMPTIONS = ['the observations compared are all models of the compiled formula (projected, decoded by the library) and the mismatch checker verdicts; '
@@ -76,6 +76,9 @@ def menu(cs):
          'inner': cb(['A', 'B'], ['A']), 'constraints': []},
         {'op': 'repeat', 'block': {'op': 'shared', 'name': 'outer', 'block': gen.cross(['C'], ['C'], [{'c': 'MinimumTrials', 'k': 3}])},
          'constraints': []},
+        # Merge written with every argument at its default: of a block carrying the shared constraint, and of a plain block
+        {'op': 'merge', 'blocks': [cb(['A', 'B'], ['A'])], 'constraints': [], 'mode': 'repeat'},
+        {'op': 'merge', 'blocks': [cb(['A', 'B'], ['A'], [])], 'constraints': [], 'mode': 'repeat'},
     ]
     return m
 
